@@ -14,11 +14,10 @@ echo "== test suite with patch:"; (cd "$d" && PYTHONPATH="$d" /venv/bin/python -
 echo "== demo with patch:"; (cd "$d" && PYTHONPATH="$d" timeout 300 /venv/bin/python -B "$dir/demo.py" > "$d/.demo.out" 2>&1; echo "demo exit code with patch: $?"; tail -3 "$d/.demo.out")
 echo "== checks against the patched tree (tier ${TIER:-quick}, seed ${VERIF_SEED:-0}):"
 work=$(mktemp -d /tmp/rtseedout.XXXXXX)
-for c in $checks; do echo $c; done | xargs -P 8 -I{} bash -c "RTVERIF_REPO=$d RTVERIF_QUICK_S=120 $here/check {} --tier ${TIER:-quick} > $work/{}.out 2>&1; echo \$? > $work/{}.rc"
+for c in $checks; do echo $c; done | xargs -P 8 -I{} bash -c "RTVERIF_REPO=$d RTVERIF_OUT=$work RTVERIF_QUICK_S=120 $here/check {} --tier ${TIER:-quick} > $work/{}.out 2>&1; echo \$? > $work/{}.rc"
 for c in $checks; do
   rc=$(cat $work/$c.rc)
   if [ "$rc" != "0" ]; then echo "$c rc=$rc $(grep -A1 -E '^(VIOLATION|INCONCLUSIVE|HARNESS)' $work/$c.out | grep -E 'mechanism|INCONCLUSIVE|HARNESS' | head -2 | cut -c1-260 | tr '\n' ' ')"; fi
 done
 echo "fired: $(for c in $checks; do [ "$(cat $work/$c.rc)" = "1" ] && echo -n "$c "; done)"
-git -C "$here" checkout -- evidence 2>/dev/null
 rm -rf "$d" "$work"
